@@ -494,8 +494,15 @@ class ExprFormatted(Expr):
 
     def iterate(self, *, flat: bool = True) -> Iterator[str | Expr]:
         yield "{"
+        first = True
         # A lambda or conditional expression needs parentheses there (its colon would start the format specification).
-        yield from _yield(self.value, flat=flat, precedence=_PREC_TEST + 1)
+        for element in _yield(self.value, flat=flat, precedence=_PREC_TEST + 1):
+            if first:
+                first = False
+                # A dict or set display right after the brace would read as an escaped brace: `{{`.
+                if str(element).startswith("{"):
+                    yield " "
+            yield element
         yield "}"
 
 
